@@ -398,3 +398,37 @@ Section Cycle.
   Definition ff_output (nav_raw : Nav) (s : 'cV[F]_n * 'M[F]_n) : Nav * 'cV[F]_ns * 'M[F]_n :=
     (sub nav_raw (usubmx s.1), dsubmx s.1, s.2).
 End Cycle.
+
+(* ---- the NOISE-PARAMETRISED batch problem (singular process noise allowed) ------ *)
+(*  dynamics  x_{k+1} = Phi_k x_k + Gam_k w_k  with unit white w_k (Qd_k = Gam_k Gam_k^T is only PSD),
+    measurements z_k = H_k x_k + v_k, v_k ~ (0, R_k).  The free variables of the batch problem are the
+    initial state x_0 and the noise vectors w_0 .. w_{N-1}; no inverse of Qd appears. *)
+Section BatchNoise.
+  Variable F : realFieldType.
+  Variables n p : nat.
+  Variable md : nat -> nat.
+  Variable zs : forall k : nat, 'cV[F]_(md k).
+  Variable Hs : forall k : nat, 'M[F]_(md k, n).
+  Variable Rs : forall k : nat, 'M[F]_(md k).
+  Variable Phis : nat -> 'M[F]_n.
+  Variable Gams : nat -> 'M[F]_(n, p).
+
+  (* the state sequence generated by (x0, w) *)
+  Fixpoint nstate (x0 : 'cV[F]_n) (w : nat -> 'cV[F]_p) (k : nat) : 'cV[F]_n :=
+    match k with
+    | O => x0
+    | S k' => Phis k' *m nstate x0 w k' + Gams k' *m w k'
+    end.
+
+  (* weighted least squares objective: prior on x0, unit weight on every w_k, R_k^-1 on the residuals *)
+  Fixpoint noise_cost (xb : 'cV[F]_n) (P0 : 'M[F]_n) (N : nat) (x0 : 'cV[F]_n) (w : nat -> 'cV[F]_p) : F :=
+    match N with
+    | O => qform (invmx P0) (x0 - xb)
+    | S N' => noise_cost xb P0 N' x0 w
+              + qform (invmx (Rs N')) (zs N' - Hs N' *m nstate x0 w N')
+              + qform 1%:M (w N')
+    end.
+
+  (* the process noise covariance the filter uses *)
+  Definition gram_Qd (k : nat) : 'M[F]_n := Gams k *m (Gams k)^T.
+End BatchNoise.
